@@ -887,3 +887,19 @@ def odl_units_contracts():
         Exit("ValueError"), Exit("TypeError")], props=("C12",))
     c.cases = [(cls, {"value": "pyval", "__cls__": cls}) for cls in ("ODLEncoder", "PDSLabelEncoder")]
     return [pve, c]
+
+
+def for_try_except_contracts():
+    """pvl.decoder.for_try_except (assumed in T_dec): the result of an application that returns, else the exception"""
+    from ..pyvc.core import LoopSpec, ObjV, TupV
+    from ..pyvc.enctheory import f_ok, any_ok, is_ok_result
+    lp = LoopSpec(
+        fall_through=lambda env, st, x: [("the function raised the exception on this tuple", z3.Not(f_ok(x[0], x[1])))],
+        exit=lambda env, st: [("the function returns on no tuple", z3.Not(any_ok()))])
+    c = Contract("pvl.decoder.for_try_except", params={"exception": "excclass", "function": "callable",
+                                                      "*iterable": lambda ex: TupV([ObjV("iter1"), ObjV("iter2")])},
+                 loops={0: lp}, exits=[
+        Exit("return", res="any", when=lambda pre, a: any_ok(), post=lambda pre, post, a, r: [
+            ("the result is the function's result on a tuple on which it returns", is_ok_result(r.info["id"]))]),
+        Exit("ValueError", when=lambda pre, a: z3.Not(any_ok()))], props=("C14", "C17"))
+    return [c]
